@@ -30,7 +30,8 @@ EXPLANATION = (
     "consecutive site pairs, interiors of length <= 1 are left alone. (c) "
     "the decoy name is prefix + name; in concatenated mode the targets "
     "come first (proteins += decoys), otherwise only decoys; every record "
-    "is written as '>' + name, newline, wrapped sequence. NOT decided: "
+    "is written as '>' + name, newline, wrapped sequence. Also: entry boundaries of the input FASTA (shared with C16a). "
+    "NOT decided: "
     "FASTA text round-trip through textwrap / the reader.")
 TECHNIQUE = ("def-use term matching over all definitions + linear normal "
              "form + CFG branch analysis")
